@@ -70,6 +70,7 @@ func typedFaults() []fault {
 		{`hfail()`, true}, {`conv()`, true}, {`conv(1)`, true}, {`conv("a", "b")`, true}, {`conv(1, "a", 3)`, true}, {`conv(1, 2)`, true}, {`conv(true, "a")`, true},
 		{`convv()`, true}, {`convv("a")`, true}, {`convv(1, 2)`, true},
 		// legal oddities: must simply not panic
+		{`convn("a", 1, 2)`, false}, {`convn("a")`, false}, {`convn(1)`, true}, {`convn("a", "b")`, true},
 		{`conv(1, "a")`, false}, {`convv(1)`, false}, {`convv(1, "a", "b")`, false}, {`string(0/0)`, false}, {`string(1/0)`, false}, {"string(" + numText(1e300) + " * " + numText(1e300) + ")", false},
 		{`bool(0/0)`, false}, {`number("NaN")`, false}, {`number("1e999")`, false}, {`number("0x10")`, false}, {`bool("T")`, false},
 		{`visited("")`, false}, {`visited_count("nowhere")`, false}, {`0/0 == 0/0`, false}, {`(1/0) % 2`, false}, {`2 % 0`, false},
@@ -167,6 +168,8 @@ func statementFaults() [][]*yc.Stmt {
 		{yc.Command("nocmd")},
 		{yc.Command("nocmd", yc.CmdArg{Word: "x"})},
 		{yc.Command("cfail")},
+		{yc.Command("laterfail")}, // completes after one poll, with an error
+		{yc.Command("later"), yc.Command("laterfail"), yc.Command("cfail")},
 		{yc.Command("wait")},
 		{yc.Command("wait", yc.CmdArg{Word: "soon"})},
 		{yc.Command("wait", yc.CmdArg{Word: "1"}, yc.CmdArg{Word: "2"})},
@@ -184,7 +187,7 @@ func statementFaults() [][]*yc.Stmt {
 
 var c06Host = &yc.HostSpec{
 	Funcs: []yc.FuncSpec{{Name: "probe", Echo: true}, {Name: "note"}, {Name: "hfail", Fails: true}},
-	Cmds:  []yc.CmdSpec{{Name: "act"}, {Name: "cfail", Fails: true}},
+	Cmds:  []yc.CmdSpec{{Name: "act"}, {Name: "cfail", Fails: true}, {Name: "later", Deferred: true}, {Name: "laterfail", Deferred: true, Fails: true}},
 	Vars:  map[string]yc.Value{"f": yc.Bool(false)},
 }
 
@@ -192,6 +195,7 @@ func c06Setup(r *yc.Real, log *[]string) {
 	c06Host.Install(r.DR, log)
 	r.DR.ConvertAndAddFunction("conv", func(i int, s string) int { return i + len(s) })
 	r.DR.ConvertAndAddFunction("convv", func(i int, rest ...string) string { return fmt.Sprint(i, rest) })
+	r.DR.ConvertAndAddFunction("convn", func(owner myString, coins ...myInt) myInt { return myInt(len(owner) + len(coins)) })
 }
 
 // c06Run executes one faulty program: every choice sequence, no call may panic; if mustErrStep is
@@ -234,6 +238,7 @@ func c06Run(ctx *report.Ctx, c *explore.Chooser, partName string, p *yc.Program,
 		Setup: func(r *yc.Real, log *[]string) {
 			r.DR.ConvertAndAddFunction("conv", func(i int, s string) int { return i + len(s) })
 			r.DR.ConvertAndAddFunction("convv", func(i int, rest ...string) string { return fmt.Sprint(i, rest) })
+			r.DR.ConvertAndAddFunction("convn", func(owner myString, coins ...myInt) myInt { return myInt(len(owner) + len(coins)) })
 		}}
 	mm, st := yc.Walk(p, srcs, c06Host, wo)
 	ctx.AddStates(st.Steps)
@@ -328,7 +333,7 @@ func runC06(ctx *report.Ctx) {
 		if inOption {
 			body = []*yc.Stmt{yc.Options(&yc.Option{Line: yc.TextLine("o1"), Body: body}, &yc.Option{Line: yc.TextLine("o2")})}
 		}
-		c06Run(ctx, c, "P1-statements", wrapProgram(body), "statement fault", false)
+		c06Run(ctx, c, "P1-statements", wrapProgram(body), "statement fault", true)
 	})
 	domainPos := pos
 	part(ctx, "P1-domain", -1, func(c *explore.Chooser) {
